@@ -17,6 +17,9 @@ def row_group_offsets(rng, n):
         # explicit list starting at 0
         k = int(rng.integers(1, 5))
         cuts = sorted(set(int(x) for x in rng.integers(1, max(2, n), k)))
+        if n > 4 and k == 2:
+            # a list that does not name row 0 (the rows before its first entry are a row group too)
+            return [x for x in cuts if 0 < x < n]
         return [0] + [x for x in cuts if 0 < x < n]
     if c == 4:
         # explicit list with an empty group (repeated offset)
